@@ -88,8 +88,9 @@ def main():
     if keep and res['valid']:
         dst = os.path.join(VERIF, 'preserving', sid)
         os.makedirs(dst, exist_ok=True)
-        shutil.copy(os.path.join(src, 'patch.diff'), dst)
-        shutil.copy(os.path.join(src, 'demo.py'), dst)
+        if os.path.abspath(src) != os.path.abspath(dst):
+            shutil.copy(os.path.join(src, 'patch.diff'), dst)
+            shutil.copy(os.path.join(src, 'demo.py'), dst)
         meta = {}
         try:
             meta = json.load(open(os.path.join(src, 'meta.json')))
